@@ -150,7 +150,7 @@ def neighbor_text(
     ap = ''
     if addpath:
         fams = addpath_families if addpath_families is not None else families
-        ap = '    add-path {\n' + ''.join(f'        {FAM_TEXT[f]};\n' for f in fams) + '    }'
+        ap = '    add-path {\n' + ''.join(f'        {FAM_TEXT[tuple(f)]};\n' for f in fams) + '    }'
     nh = ''
     if nexthop:
         names = {1: 'ipv4', 2: 'ipv6'}
@@ -163,7 +163,7 @@ def neighbor_text(
         pas=pas,
         hold=hold,
         extra=extra,
-        families=''.join(f'        {FAM_TEXT[f]};\n' for f in families),
+        families=''.join(f'        {FAM_TEXT[tuple(f)]};\n' for f in families),
         capability='\n'.join(cap),
         addpath=ap,
         nexthop=nh,
